@@ -100,6 +100,25 @@ fn run_entry(entry: &str, input: &[u8]) -> Option<bool> {
             !hs.to_string().is_empty()
         }
         "hname" => HeaderName::new_from_ascii(text()).is_ok(),
+        // the input is the header name (the longest accepted names leave no room on the first line), under a few values
+        "hvaln" => match HeaderName::new_from_ascii(text()) {
+            Ok(name) => {
+                let mut n = 0;
+                for v in ["v", "two words", "caf\u{e9} au lait", "a value that is long enough to be folded over several lines, whatever the name's length is"] {
+                    let mut hs = lettre::message::header::Headers::new();
+                    hs.insert_raw(HeaderValue::new(name.clone(), v.to_owned()));
+                    n += hs.to_string().len();
+                }
+                n > 0
+            }
+            Err(_) => false,
+        },
+        // the DATA phase encoder (dot-stuffing) on the input as one frame and in 1 KiB frames
+        "codec" => {
+            let whole = lettre::verif_hooks::codec_encode(&[input]);
+            let frames: Vec<&[u8]> = input.chunks(1024).collect();
+            lettre::verif_hooks::codec_encode(&frames).len() == whole.len() && whole.len() >= input.len()
+        }
         "bodys" => {
             let b = Body::new(text());
             !b.as_ref().is_empty() || input.is_empty()
